@@ -61,6 +61,33 @@ def _global_pool(seed):
 
 
 _pool_cache = {}
+_PERMS = [(0, 1, 2), (0, 2, 1), (1, 0, 2), (1, 2, 0), (2, 0, 1), (2, 1, 0)]
+
+
+def _orderings_program(seed, run):
+    block = run // 40
+    rng = core.run_rng('C09-orderings', seed, block)       # the same documents for the six runs of a block
+    recipe = rng.choice([['K0'], ['K1'], ['K1'], ['K2'], ['K2'], ['K3'], ['KG']])
+    g = docgen.DocGen(rng, recipe)
+    docs = []
+    while len(docs) < 3:
+        d = g.document()
+        if rng.random() < 0.3:
+            d = docgen.faulty_variant(rng, d)
+        if docgen.base_kind(recipe) in ('K1', 'K2') and rng.random() < 0.5 and \
+           not any(m in d for m in STATEFUL_MARKS):
+            d += rng.choice([' \\mv{a{b}c}', ' \\mw{p{q}r}', ' \\mz*[a[b]c]', ' \\lgs{def} % c\nx', ' \\begin{snip}[raw]$y$\\end{snip}'])
+        if d not in docs:
+            docs.append(d)
+    tol = [rng.random() < 0.3 for _ in docs]
+    ops = [['mkctx', recipe]]
+    for k in _PERMS[run % 40 - 34]:
+        ops.append(['parse', 0, docs[k], tol[k], ['general']])
+    # ... and once more in the same order, so that every document is also parsed after all others
+    for k in _PERMS[run % 40 - 34][:2]:
+        ops.append(['parse', 0, docs[k], tol[k], ['general']])
+    return {'batch': 'orderings', 'ops': ops}
+
 
 
 def generate(rng, tier, run):
@@ -70,6 +97,10 @@ def generate(rng, tier, run):
     gpool = _pool_cache[seed]
     sel = run % 10
     batch = 'plain' if sel < 4 else 'aborts'
+    if run % 40 >= 34:
+        # all orderings of a small set of documents: runs 34..39 of every block of 40 parse the
+        # same three documents (chosen per block) with one shared context in the six possible orders
+        return _orderings_program(seed, run)
     if tier == 'thorough' and rng.random() < 0.25:
         n_ops = rng.randint(20, 60)
     else:
@@ -810,7 +841,8 @@ RULE = ("programs are seeded histories (8-20 operations, up to 60 in the thoroug
         "implicit default): parses through parse_content(LatexGeneralNodesParser), the legacy get_latex_nodes, "
         "get_standard_argument_parser(spec, **kw) at a position, re-entrant parses from a finalize_node callback, "
         "other library activity, and aborted parses (strict error, callback raising, RecursionError, interrupt at "
-        "the k-th line event); documents come from a per-program pool so the same document returns at different "
+        "the k-th line event); six runs of every block of 40 parse one set of three documents with one shared "
+        "context in the six possible orders; documents come from a per-program pool so the same document returns at different "
         "points of the history; a program is non-trivial when a stateful shared parser kind (verbatim, delimited "
         "verbatim, comma list, tack-on, explicit shared instances) is used by at least two operations separated "
         "by another operation; distinct = distinct program digest; 'states' = distinct shared-state signatures "
